@@ -70,3 +70,22 @@ claim("C17",
       "exercised by fault injection on recorded runs." + SIMNOTE,
       "Trusted: Coq kernel + VM; harness recorder and fault injection (class-level patch of the concrete strategy's step). No axioms.",
       "Coq proof of the run-loop model + exact correspondence + fault injection", "5.17")
+claim("C07",
+      "Theorems over the Events model, for all event lists, orders, intervals and horizons: the delivery step is the ceiling of "
+      "(signal - t0)/interval (never before signalled; before-start events go to step 0); only events signalled at/after the end "
+      "are ignored; a pre-step advances the clock by one interval and applies exactly the queued events that have started, in "
+      "stable chronological order, keeping the rest queued and sorted (hence: effect at the first step at/after start, once, none "
+      "lost); series give factor*value at start+i*step and zero after the last value; no event lifts a connector's limit above its "
+      "rating. Model tied to /repo by exact correspondence on random event histories, which also checks the implementation "
+      "against an independent declarative reference (last-writer semantics of loads, limit, cost, target, window).",
+      "Trusted: Coq kernel + VM; harness (direct construction of Components/Events/Strategy, datetime -> microseconds). Scheduling "
+      "theorems are axiom-free; value theorems use the Reals axioms. The CSV readers (price list, schedule) are covered under C13.",
+      "Coq proof over integer-time event model + exact differential correspondence + independent reference", "5.7")
+claim("C08",
+      "Theorems (R instance) for every vehicle event and world state: an arrival lowers the SoC by exactly the trip consumption "
+      "once, connects the vehicle with the announced departure time and desired SoC and clears the consumption; negative SoC: "
+      "time recorded, RuntimeError unless allowed, reset to zero only if requested; a departure disconnects, clears the "
+      "estimate, changes the SoC only by the documented past-event rule and increments the two counters exactly under their "
+      "conditions; unknown vehicles are skipped; other events never touch a vehicle. Strategy-side half of 'disconnected SoC "
+      "constant' is sampled under C06. Same correspondence and reference as C07.",
+      TB + AX_R + ".", "Coq proof over event model + exact differential correspondence + independent reference", "5.8")
